@@ -1112,9 +1112,12 @@ func trafficAfterHandshake(ctx context.Context, st *stream.Stream, tap *wireTap,
 	}
 }
 
-func runHonestPairX(cc clientCfg, sc serverCfg, cmd int, clientSees string) (r pairRun) {
+func runHonestPairX(cc clientCfg, sc serverCfg, cmd int, clientSees string, bound time.Duration) (r pairRun) {
 	ca, cb, tap := tappedPair("10.0.0.1:1111", "10.0.0.2:9618", clientSees)
-	ctx, cancel := context.WithTimeout(context.Background(), hsHonestTimeout)
+	if bound == 0 {
+		bound = hsHonestTimeout
+	}
+	ctx, cancel := context.WithTimeout(context.Background(), bound)
 	defer cancel()
 	cst, sst := stream.NewStream(ca), stream.NewStream(cb)
 	sst.SetPeerAddr("10.0.0.1:1111")
@@ -1233,6 +1236,7 @@ type pairShape struct {
 	cc, scs  []string
 	ci, si   string   // integrity levels ("" = OPTIONAL)
 	ok       []string // methods whose exchange succeeds between these two parties
+	bound    time.Duration // 0 = hsHonestTimeout
 	nat      bool     // the client reaches the server through an address translator (FS then fails: the path names another endpoint)
 	ct, st   func(*security.SecurityConfig)
 }
@@ -1272,12 +1276,22 @@ func runPairCell(sh pairShape, ca, sa, ce, se string, cmd int) pairVerdict {
 	if sh.nat {
 		sees = "192.0.2.77:9618"
 	}
-	r := runHonestPairX(cc, sc, cmd, sees)
+	r := runHonestPairX(cc, sc, cmd, sees, sh.bound)
 	op := fmt.Sprintf("honest cauth=%s cenc=%s cinteg=%s cmethods=%s cciphers=%s sauth=%s senc=%s sinteg=%s smethods=%s sciphers=%s ok=%s user=u",
 		ca, ce, ci, joinOrDash(sh.cm), joinOrDash(sh.cc), sa, se, si, joinOrDash(sh.sm), joinOrDash(sh.scs), joinOrDash(sh.ok))
 	ran := "?" // the authentication loop on the wire could not be followed
 	if r.wire.parsed {
-		ran = joinDash(r.wire.ranOK)
+		shown := append([]string{}, r.wire.ranOK...)
+		for i, m := range shown {
+			// the wire shows the method bit; where the bit has two spellings use the one the server lists
+			for _, own := range sh.sm {
+				if own != m && canonMethod(own) == m {
+					shown[i] = own
+					break
+				}
+			}
+		}
+		ran = joinDash(shown)
 	}
 	side := func(o honestObs) string {
 		if o.err != nil {
@@ -1327,11 +1341,11 @@ func reportedIsReal(c *Ctx, prop, keyPrefix string, sh pairShape, ca, sa, ce, se
 		wireAuthd := len(r.wire.ranOK) > 0
 		if e.o.neg.Authentication != wireAuthd {
 			viol(e.role+":reported-auth", "reported authentication flag differs from what completed on the wire", fmt.Sprint(wireAuthd), fmt.Sprint(e.o.neg.Authentication))
-		} else if wireAuthd && string(e.o.neg.NegotiatedAuth) != r.wire.ranOK[len(r.wire.ranOK)-1] {
+		} else if wireAuthd && canonMethod(string(e.o.neg.NegotiatedAuth)) != r.wire.ranOK[len(r.wire.ranOK)-1] {
 			viol(e.role+":reported-method", "the method the endpoint reports is not the one whose exchange completed on the wire (exchanges begun: "+joinDash(r.wire.ranAny)+")",
 				r.wire.ranOK[len(r.wire.ranOK)-1], string(e.o.neg.NegotiatedAuth))
 		}
-		if e.auth == "REQUIRED" && !(wireAuthd && contains(e.own, r.wire.ranOK[len(r.wire.ranOK)-1])) {
+		if e.auth == "REQUIRED" && !(wireAuthd && containsCanon(e.own, r.wire.ranOK[len(r.wire.ranOK)-1])) {
 			viol(e.role+":required-auth-not-run", "success under authentication REQUIRED although no own-listed method completed on the wire", "an own-listed method completed", joinDash(r.wire.ranOK))
 		}
 		if e.o.neg.Encryption != e.o.st.IsEncrypted() {
@@ -1381,7 +1395,7 @@ func runMatrix(c *Ctx) error {
 		{name: "integ-req-client", cm: cb, sm: cb, cc: aes, scs: aes, ci: "REQUIRED", ok: cb},
 		{name: "integ-req-server-no-cipher", cm: cb, sm: cb, cc: aes, scs: []string{"3DES"}, si: "REQUIRED", ok: cb},
 		{name: "integ-never", cm: cb, sm: cb, cc: aes, scs: aes, ci: "NEVER", si: "NEVER", ok: cb},
-		//GAP5 {name: "sci-and-id", cm: []string{"SCITOKENS", "IDTOKENS"}, sm: []string{"IDTOKENS", "SCITOKENS"}, cc: aes, scs: aes, ok: []string{"IDTOKENS"}, ct: mat.cliToken(mat.tokenFile), st: mat.srvToken()},
+		{name: "sci-and-id", bound: 3 * time.Second, cm: []string{"SCITOKENS", "IDTOKENS"}, sm: []string{"IDTOKENS", "SCITOKENS"}, cc: aes, scs: aes, ok: []string{"IDTOKENS"}, ct: mat.cliToken(mat.tokenFile), st: mat.srvToken()},
 	}
 	if c.Thorough() {
 		shapes = append(shapes, two...)
